@@ -63,6 +63,8 @@ static Avoid::Router *mk_router(bool ortho, double segPen, double buf, const vec
     Avoid::Router *r = new Avoid::Router(ortho ? Avoid::OrthogonalRouting : Avoid::PolyLineRouting);
     r->setRoutingParameter(Avoid::segmentPenalty, segPen);
     r->setRoutingParameter(Avoid::shapeBufferDistance, buf);
+    if (getenv("VERIF_PROBE_NAIVE")) r->UseLeesAlgorithm = false;   // probe only (undocumented public flag)
+    if (getenv("VERIF_PROBE_NOINVIS")) r->InvisibilityGrph = false;
     for (auto &sh : sc) { Avoid::Polygon pg(sh.v.size()); for (size_t k = 0; k < sh.v.size(); k++) pg.ps[k] = Avoid::Point(sh.v[k].x * S, sh.v[k].y * S); new Avoid::ShapeRef(r, pg); }
     return r;
 }
